@@ -231,7 +231,12 @@ func VerifC17LaunchBinding() {
 		// client until it is removed)
 		for i, c := range vC17Consumers {
 			if i != target && pre.client[i] >= 0 {
-				if vh.ConcretizeInt(vh.Int(vh.Sprintf("stopped_%d", i)), 0, 1) == 1 {
+				// bound independent_phases=0 (quick tier): all holders share one phase choice
+				name := "holders_stopped"
+				if vh.Bound("independent_phases", 0) == 1 {
+					name = vh.Sprintf("stopped_%d", i)
+				}
+				if vh.ConcretizeInt(vh.Int(name), 0, 1) == 1 {
 					e.k.SetConsumerPhase(e.ctx, c, types.CONSUMER_PHASE_STOPPED)
 				} else {
 					e.k.SetConsumerPhase(e.ctx, c, types.CONSUMER_PHASE_LAUNCHED)
